@@ -5,7 +5,7 @@ import Pyc.Model.Output
 
 * A Python list is a `List`; `list.append` is `++ [x]`; the model is pure, so the caller's pool can not be altered
   (in Python `sorted(utxos)` / `list(utxos)` make the working copies; the harness snapshots the pool).
-* `Value` arithmetic and `<=` are the functions of `Pyc/Model/Value.lean` (`Value.__le__` is key-directed, see C05).
+* `Value` arithmetic and `<=` are the functions of `Pyc/Model/Value.lean` (`Value.__le__` is the component-wise order for all operands: `Pyc.C05.le_iff`).
 * Exceptions are `Except SelErr`; `crash` stands for a non-selection exception escaping `select`
   (`IndexError` / `KeyError` / `ValueError`), `fuel` for an exhausted recursion budget of the *model* (proved
   unreachable: `Pyc.C14.ri_terminates`).
